@@ -760,6 +760,155 @@ theorem wg_file_replayed (cfg : Cfg) (bunches : List (List WG)) (specs : List (L
     · simp only [if_true, List.nil_append, List.append_nil, execStmts_append, ← hσg, ← hσm, ← hho]
       rw [execStmts_atoms _ n1]; exact n4
 
+/-! ### the whole Nasu and marker files -/
+
+/-- the behaviour the move-level theorems establish for the structure part of a writer program -/
+def BodyMoves (cfg : Cfg) (body : List Op) (M : Pos → List Move) : Prop :=
+  ∀ (cs : CS) (σ : St), cs.shutterOn = false → σ.absMode = true → σ.shutter = false →
+    (execOps cfg body cs).err = none ∧ (execOps cfg body cs).pre = [] ∧ (execOps cfg body cs).cs.shutterOn = false ∧
+      movesOf (execStmts (execOps cfg body cs).out σ).2 = M σ.pos ∧
+      (execStmts (execOps cfg body cs).out σ).1.absMode = true ∧ (execStmts (execOps cfg body cs).out σ).1.shutter = false
+
+/-- the positioning operation that ends a writer program: `go_init` (waveguides, Nasu) or `go_origin` (markers) -/
+theorem lastOp_run (cfg : Cfg) (last : Op) (hl : last = .goInit ∨ last = .goOrigin) (cs : CS) (σ : St)
+    (hcs : cs.shutterOn = false) (hsh : σ.shutter = false) :
+    atomsOnly (execOp cfg last cs).out ∧ (execOp cfg last cs).pre = [] ∧ (execOp cfg last cs).cs.shutterOn = false ∧
+      (∀ m ∈ movesOf (execStmts (execOp cfg last cs).out σ).2, m.shutter = false) ∧
+      (execStmts (execOp cfg last cs).out σ).1.shutter = false := by
+  rcases hl with rfl | rfl
+  · obtain ⟨m1, m2, m3, m4⟩ := moveTo_run cfg (some (-2)) (some 0) (some 0) none cs σ hcs hsh
+    simp only [execOp]
+    refine ⟨m1, trivial, m2, ?_, ?_⟩
+    · rw [execStmts_atoms _ m1]; exact m3
+    · rw [execStmts_atoms _ m1]; exact m4
+  · obtain ⟨qa, aa, ea⟩ := comment_quiet true cs
+    obtain ⟨a1, a2, a3, a4⟩ := execFlat_quiet _ qa σ
+    obtain ⟨m1, m2, m3, m4⟩ := moveTo_run cfg (some 0) (some 0) (some 0) none cs
+      (execFlat (flattenStmts (comment true cs).1) σ).1 hcs (by rw [a3, hsh])
+    have hat : atomsOnly ((comment true cs).1 ++ (moveTo cfg (some 0) (some 0) (some 0) none cs).1.1) := atomsOnly_append aa m1
+    simp only [execOp, Res.andThen, Res.ofOut, ea]
+    refine ⟨hat, rfl, m2, ?_, ?_⟩
+    · rw [execStmts_atoms _ hat]
+      simp only [flattenStmts_append, execFlat_append, movesOf_append, a4, List.nil_append]
+      exact m3
+    · rw [execStmts_atoms _ hat]
+      simp only [flattenStmts_append, execFlat_append]
+      exact m4
+
+/-- **a whole writer file**: header, `DWELL`, the structures, the final positioning operation, the optional homing move. If the
+structure part performs `M` (from the position it is entered at), the file performs `M {}` from the unknown start position, and
+every other move of the program is made with the shutter closed; the program ends with the shutter closed. -/
+theorem file_replayed (cfg : Cfg) (body : List Op) (last : Op) (M : Pos → List Move) (hl : last = .goInit ∨ last = .goOrigin)
+    (hrot : cfg.aeroAngle = 0) (hh : headerStill cfg.header = true) (hb : BodyMoves cfg body M) :
+    ∃ tail, movesOf (execStmts (session cfg (body ++ [last])).1 {}).2 = M {} ++ tail ∧
+      (∀ m ∈ tail, m.shutter = false) ∧ (execStmts (session cfg (body ++ [last])).1 {}).1.shutter = false := by
+  obtain ⟨d1, d2, d3, d4, d5, d6⟩ := head_run cfg hh
+  set hd : Out := seq (seq (emit (cfg.header ++ [.blank]), ({} : CS)) (dwell (some 1))) fun cs => (emit [.blank], cs) with hhd
+  obtain ⟨g1, g2, g3, g4, g5, g6⟩ := hb hd.2 (execStmts hd.1 {}).1 d2 d5 d6
+  set rg := execOps cfg body hd.2 with hrg
+  set σg := (execStmts rg.out (execStmts hd.1 {}).1).1 with hσg
+  obtain ⟨m1, mp, m2, m3, m4⟩ := lastOp_run cfg last hl rg.cs σg g3 g6
+  set mo := execOp cfg last rg.cs with hmo
+  set σm := (execStmts mo.out σg).1 with hσm
+  obtain ⟨n1, n2, n3, n4⟩ := moveTo_run cfg (some (-2)) (some 0) (some 0) none mo.cs σm m2 m4
+  set ho := moveTo cfg (some (-2)) (some 0) (some 0) none mo.cs with hho
+  have hr : execOps cfg (body ++ [last]) hd.2 = { out := rg.out ++ mo.out, pre := [], cs := mo.cs, err := mo.err } := by
+    rw [execOps_append_ok cfg _ _ _ g1]
+    simp only [execOps, ← hrg, ← hmo, g2, mp]
+    cases he : mo.err <;> simp [he, mp]
+  refine ⟨movesOf (execStmts mo.out σg).2 ++ (if cfg.home = true then movesOf (execStmts ho.1.1 σm).2 else []), ?_, ?_, ?_⟩
+  · unfold session
+    simp only [hrot, if_true, ← hhd, hr]
+    rw [d4] at g4
+    cases hhome : cfg.home
+    · simp only [Bool.false_eq_true, if_false, List.nil_append, List.append_nil, execStmts_append, movesOf_append, d3, g4,
+        ← hσg]
+    · simp only [if_true, List.nil_append, List.append_nil, execStmts_append, movesOf_append, d3, g4, ← hσg, ← hho, ← hσm,
+        List.append_assoc]
+  · intro m hm
+    rcases List.mem_append.mp hm with hm | hm
+    · exact m3 m hm
+    · split at hm
+      · rw [execStmts_atoms _ n1] at hm; exact n3 m hm
+      · simp at hm
+  · unfold session
+    simp only [hrot, if_true, ← hhd, hr]
+    cases hhome : cfg.home
+    · simp only [Bool.false_eq_true, if_false, List.nil_append, List.append_nil, execStmts_append, ← hσg, ← hσm, m4]
+    · simp only [if_true, List.nil_append, List.append_nil, execStmts_append, ← hσg, ← hσm, ← hho]
+      rw [execStmts_atoms _ n1]; exact n4
+
+
+/-- the matrices the Nasu program writes, in order: for every waveguide its shifted copies in `adj_scan_order` -/
+def nasuMats (ws : List Nasu) : List (List Pt) :=
+  ws.flatMap fun w => (adjScanOrder w.adjScan).map fun k => shiftPts w.pts k w.dx w.dy w.dz
+
+theorem nasuOps_eq (ws : List Nasu) : nasuOps ws = (nasuMats ws).map Op.write ++ [Op.goInit] := by
+  simp [nasuOps, nasuMats, List.map_flatMap, List.map_map, Function.comp_def]
+
+/-- **C08, the whole Nasu file.** For every list of Nasu waveguides whose shifted copies `write` accepts (closed 0 / 1 paths), the
+file `NasuWriter.pgm` writes performs `passFrom` over `nasuMats`: every waveguide once per adjacent pass, in `adj_scan_order`
+(`adjOrder_*`: symmetric, unit spacing, outward), point for point; the remaining moves are closed positioning moves. -/
+theorem nasu_file_replayed (cfg : Cfg) (ws : List Nasu) (wss : List (List (G1W × Rat)))
+    (hrot : cfg.aeroAngle = 0) (hh : headerStill cfg.header = true)
+    (hp : List.Forall₂ (fun m w => printed cfg m = .ok w) (nasuMats ws) wss)
+    (hs : ∀ m ∈ nasuMats ws, ∀ p ∈ m, p.s = 0 ∨ p.s = 1) (hc : ∀ m ∈ nasuMats ws, endsClosed m) :
+    ∃ tail, movesOf (execStmts (session cfg (nasuOps ws)).1 {}).2 = passFrom {} wss ++ tail ∧
+      (∀ m ∈ tail, m.shutter = false) ∧ (execStmts (session cfg (nasuOps ws)).1 {}).1.shutter = false := by
+  rw [nasuOps_eq]
+  refine file_replayed cfg _ .goInit (fun p => passFrom p wss) (Or.inl rfl) hrot hh ?_
+  intro cs σ hcs habs hsh
+  obtain ⟨a1, a2, a3, a4, a5, _, a7, a8⟩ := writes_pass cfg (nasuMats ws) wss hp hs hc cs σ hcs habs hsh
+  refine ⟨a1, a2, a4, ?_, ?_, ?_⟩
+  · rw [execStmts_atoms _ a3]; exact a5
+  · rw [execStmts_atoms _ a3]; exact a7
+  · rw [execStmts_atoms _ a3]; exact a8
+
+theorem mk_rep_pre (cfg : Cfg) (m : List Pt) (n : Int) (cs : CS) :
+    (execOp cfg (Op.rep n [Op.comment true, Op.write m, Op.comment false]) cs).pre = [] := by
+  simp only [execOp]
+  split
+  · rfl
+  · simp only [execOps, execOp, Res.ofOut]
+    cases hw : write cfg m (comment true cs).2 <;> simp [hw]
+
+/-- a marker the writer can compile, with its printed matrix and scan count -/
+def MkOK (cfg : Cfg) (m : WG) (g : List (List (G1W × Rat)) × Nat) : Prop :=
+  (∃ ws, printed cfg m.pts = .ok ws ∧ g.1 = [ws]) ∧ m.scan = (g.2 : Int) ∧ 0 < g.2 ∧
+    (∀ p ∈ m.pts, p.s = 0 ∨ p.s = 1) ∧ endsClosed m.pts
+
+theorem mk_body_moves (cfg : Cfg) (ms : List WG) (specs : List (List (List (G1W × Rat)) × Nat))
+    (h : List.Forall₂ (MkOK cfg) ms specs) :
+    BodyMoves cfg (ms.map fun m => Op.rep m.scan [Op.comment true, Op.write m.pts, Op.comment false]) (fun p => groupsFrom p specs) := by
+  induction h with
+  | nil => intro cs σ hcs habs hsh; simp [execOps, execStmts, movesOf, groupsFrom, hcs, habs, hsh]
+  | @cons m g ms specs hg _ ih =>
+    intro cs σ hcs habs hsh
+    obtain ⟨⟨ws, hp, hg1⟩, hscan, hpos, hs, hc⟩ := hg
+    have hn : (0 : Int) < m.scan := by rw [hscan]; exact_mod_cast hpos
+    obtain ⟨g1, g3, g5, g6, g7, g8⟩ := mk_scans_replayed cfg m.pts ws m.scan hn hp hs hc cs σ hcs habs hsh
+    have g2 := mk_rep_pre cfg m.pts m.scan cs
+    obtain ⟨i1, i2, i3, i4, i5, i6⟩ := ih (execOp cfg (Op.rep m.scan [Op.comment true, Op.write m.pts, Op.comment false]) cs).cs
+      (execStmts (execOp cfg (Op.rep m.scan [Op.comment true, Op.write m.pts, Op.comment false]) cs).out σ).1 g3 g7 g8
+    simp only [List.map_cons, execOps, g1]
+    rw [i1]
+    refine ⟨rfl, by rw [i2, g2]; rfl, i3, ?_, ?_, ?_⟩
+    · obtain ⟨wss, n⟩ := g
+      simp only at hg1 hscan
+      have hn' : m.scan.toNat = n := by omega
+      subst hg1
+      simp only [execStmts_append, movesOf_append, g5, i4, g6, groupsFrom, hn']
+    · simp only [execStmts_append, i5]
+    · simp only [execStmts_append, i6]
+
+/-- **C08, the whole marker file.** Every marker is drawn exactly its number of scans times, point for point, one after the other;
+the remaining moves (`go_origin`, homing) are made with the shutter closed. -/
+theorem mk_file_replayed (cfg : Cfg) (ms : List WG) (specs : List (List (List (G1W × Rat)) × Nat))
+    (hrot : cfg.aeroAngle = 0) (hh : headerStill cfg.header = true) (h : List.Forall₂ (MkOK cfg) ms specs) :
+    ∃ tail, movesOf (execStmts (session cfg (mkOps ms)).1 {}).2 = groupsFrom {} specs ++ tail ∧
+      (∀ m ∈ tail, m.shutter = false) ∧ (execStmts (session cfg (mkOps ms)).1 {}).1.shutter = false :=
+  file_replayed cfg _ .goOrigin (fun p => groupsFrom p specs) (Or.inr rfl) hrot hh (mk_body_moves cfg ms specs h)
+
 /-! non-vacuity: two closed waveguides in one group, three scans, mirrored and shifted configuration; the hypotheses of
 `wg_groups_replayed` are met and the trace has 3 × (moves of one pass) moves -/
 private def demoCfg : Cfg := { shiftX := 1/2, flipX := true, neff := 2 }
